@@ -57,10 +57,10 @@ var plans = []Plan{
 		ID: "C20", Level: "exploration",
 		Rule: "Part A: every exported RFC error value (37) and a plain Go error x hint / debug / description / state text assembled from a hostile alphabet (quotes, HTML and form-breaking markup, CR LF header text, NUL, invalid UTF-8, percent sequences, non-ASCII) with a unique canary in the debug field and another in the wrapped cause x legacy / new error format x debug exposure on / off x writer (access, PAR, authorize JSON / query / fragment / form_post, introspection, revocation): body parses (JSON, redirect parameters from the raw Location, form_post page through an HTML5 parser), error code and HTTP status match, description / hint / debug / state round-trip, canary present only when exposure is on, the wrapped cause never, no injected headers, parameters or markup, no-store / no-cache on every error and success response. Part B: generated sequences of flows (code with PKCE, hybrid, implicit, password, client credentials, device, PAR, refresh, revocation, introspection) with recognisable secrets (client secret over Basic / POST, client assertion, user password, S256 verifier, every code / token / device code the harness receives) under a storage recorder: no storage call key and no stored request-form value equals or contains one. Non-trivial: error text that needs escaping in its target context; a flow sequence in which secrets were submitted; distinct by (writer, error, format, texts) / (store, strategy, auth method, flows).",
 		Jobs: []Job{
-			{Test: "TestC20_ErrorWriters", Shards: [2]int{8, 12}, Checks: [2]int{1500, 40000}, Timeout: [2]int{600, 3000}},
-			{Test: "TestC20_SuccessHeaders", Shards: [2]int{1, 1}, Timeout: [2]int{300, 300}},
-			{Test: "TestC20_StorageErrorsStayInternal", Shards: [2]int{6, 8}, Checks: [2]int{800, 12000}, Timeout: [2]int{600, 3000}},
-			{Test: "TestC20_StorageSecrets", Shards: [2]int{7, 12}, Checks: [2]int{400, 6000}, Timeout: [2]int{600, 3000}},
+			{Test: "TestC20_ErrorWriters", Shards: [2]int{8, 12}, Checks: [2]int{1500, 40000}, Timeout: [2]int{1500, 9000}},
+			{Test: "TestC20_SuccessHeaders", Shards: [2]int{1, 1}, Timeout: [2]int{900, 1800}},
+			{Test: "TestC20_StorageErrorsStayInternal", Shards: [2]int{6, 8}, Checks: [2]int{800, 12000}, Timeout: [2]int{1500, 9000}},
+			{Test: "TestC20_StorageSecrets", Shards: [2]int{7, 12}, Checks: [2]int{400, 6000}, Timeout: [2]int{1500, 9000}},
 		},
 	},
 
@@ -69,11 +69,11 @@ var plans = []Plan{
 		Rule: "three engines: (1) rapid generates per-goroutine operation lists over the reference MemoryStore (create/get/delete/revoke-by-request-id/invalidate/JTI set+check on a 3-key, 2-request-id pool to force contention), runs them with real parallelism, records call/return timestamps and lets porcupine decide linearizability against a sequential specification partitioned by table; (2) every pair of the API operations authorize, redeem, refresh, revoke (refresh/access), introspect, device poll, PAR use on overlapping credentials is executed under ALL interleavings of their storage steps (the harness owns the schedule; exhaustive DFS for pairs up to a run cap, sampled triples) on both stores: no panic, no stuck schedule, every token handed out is active or was invalidated by a storage step of the other operation, no value minted twice; (3) 8 goroutines run mixed API operations on shared tokens for a fixed time under the race detector, with a fully populated and with a default-constructed Config, HMAC and JWT access tokens: race detector and concurrent-map check silent, no panic, no deadlock (watchdog). Non-trivial: a history with >=2 goroutines on the same table, a schedule whose storage steps alternate between operations, a stress run; distinct by op lists / storage-step order.",
 		Assumptions: []string{"a silent race detector is evidence, not proof; schedules finer than a storage call are only sampled by engine 3"},
 		Jobs: []Job{
-			{Test: "TestC19_StoreLinearizable", Shards: [2]int{4, 8}, Checks: [2]int{400, 8000}, Timeout: [2]int{600, 3000}},
-			{Test: "TestC19_Interleavings", Shards: [2]int{12, 16}, Timeout: [2]int{900, 3400}},
-			{Test: "TestC19_RaceStress", Shards: [2]int{4, 4}, Timeout: [2]int{600, 3000}, Race: true},
-			{Test: "TestC19_AtomicHammer", Shards: [2]int{2, 4}, Timeout: [2]int{600, 3000}},
-			{Test: "TestC19_StoreLinearizable", Shards: [2]int{2, 4}, Checks: [2]int{300, 4000}, Timeout: [2]int{600, 3000}, Race: true},
+			{Test: "TestC19_StoreLinearizable", Shards: [2]int{4, 8}, Checks: [2]int{400, 8000}, Timeout: [2]int{1500, 9000}},
+			{Test: "TestC19_Interleavings", Shards: [2]int{12, 16}, Timeout: [2]int{1800, 9000}},
+			{Test: "TestC19_RaceStress", Shards: [2]int{4, 4}, Timeout: [2]int{1500, 9000}, Race: true},
+			{Test: "TestC19_AtomicHammer", Shards: [2]int{2, 4}, Timeout: [2]int{1500, 9000}},
+			{Test: "TestC19_StoreLinearizable", Shards: [2]int{2, 4}, Checks: [2]int{300, 4000}, Timeout: [2]int{1500, 9000}, Race: true},
 		},
 	},
 
@@ -81,8 +81,8 @@ var plans = []Plan{
 		ID: "C18", Level: "fault_enumeration", ExhaustiveWhenAll: false,
 		Rule: "for each of 14 flows (code redemption with PKCE and OpenID Connect, refresh, refresh-reuse handling, device poll, implicit, hybrid, authorization-code issuance, client credentials, password, JWT bearer, revocation by refresh token, revocation by access token, PAR push, PAR use) the storage-call list of the request is recorded from a fault-free run on the tree under test; then EVERY call index x EVERY failure kind (generic error, not-found, inactive, serialization conflict, crash = the call and everything after never happen, open transaction discarded) x {reference store, transactional store with real rollback} is executed, each followed by an attack step (e.g. redeem without the PKCE verifier, foreign client), a retry by the legitimate holder and a replay; pairs (a second fault in the retry) are sampled by rapid. Oracle: refused responses carry nothing, unexpected failures refuse the request, refresh serialization conflicts are not server_error, Begin/Commit/Rollback grammar, snapshot of all code/token tables equals the pre-request snapshot when the failure is inside the issuing transaction and the retry then succeeds, single-use credentials are exchanged at most once, the attack step stays refused, a revocation answered with success after a failed write has left no token of the grant active, every write between BeginTX and Commit carries the context BeginTX returned and Commit/Rollback carry it too. Non-trivial: the fault index lies inside the issuing transaction, or the fault is followed by a successful retry; distinct by (flow, store, index, kind).",
 		Jobs: []Job{
-			{Test: "TestC18_SingleFaults", Shards: [2]int{16, 16}, Timeout: [2]int{900, 3000}},
-			{Test: "TestC18_FaultPairs", Shards: [2]int{4, 16}, Checks: [2]int{150, 6000}, Timeout: [2]int{900, 3000}},
+			{Test: "TestC18_SingleFaults", Shards: [2]int{16, 16}, Timeout: [2]int{1500, 9000}},
+			{Test: "TestC18_FaultPairs", Shards: [2]int{4, 16}, Checks: [2]int{150, 6000}, Timeout: [2]int{1500, 9000}},
 		},
 	},
 
@@ -90,47 +90,47 @@ var plans = []Plan{
 		ID: "C15", Level: "exploration",
 		Rule: "(A) private_key_jwt client assertions and (B) JWT-bearer grants built from a valid claim set by 0-2 named defects (each claim absent / wrong type / wrong value / boundary time, exp in {0, 0.5, -1, past, string}, alg none / HS256 / RS384 / PS256 / ES256, kid right / absent / unknown, key registered / another client's or subject's / unregistered, scope outside the key's scopes, option flags for optional iat / jti, max duration, client authentication) presented inside short histories with replays of accepted assertions and time advances; oracle: a list of must-refuse reasons derived from the statement - acceptance with a non-empty list is a violation, a defect-free assertion must be accepted; (C) schedules: 2 (exhaustive) or 3 (bounded DFS) simultaneous presentations of the same assertion with the harness owning the order of their storage steps - exactly one succeeds; (D) free-running: 6 goroutines present one fresh assertion (client assertion at the token endpoint, JWT-bearer grant, SetClientAssertionJWT at the reference store) at the same instant, thousands of rounds with real parallelism - at most one is accepted (reaches non-atomicity inside one storage call, below the schedule engine's resolution); client assertions are presented at the token, PAR, revocation and device-authorization endpoints, with lifetimes up to 3 days against a configured JWT-bearer maximum of 2 min / 1 h / 24 h. Non-trivial: an assertion with exactly one must-refuse reason, a replay, or a schedule in which the storage steps of different presentations alternate; distinct by defect lists / storage-step order.",
 		Jobs: []Job{
-			{Test: "TestC15_ClientAssertions", Shards: [2]int{6, 8}, Checks: [2]int{600, 10000}, Timeout: [2]int{600, 3000}},
-			{Test: "TestC15_JWTBearer", Shards: [2]int{6, 8}, Checks: [2]int{600, 10000}, Timeout: [2]int{600, 3000}},
-			{Test: "TestC15_Schedules", Shards: [2]int{8, 8}, Timeout: [2]int{600, 3000}},
-			{Test: "TestC15_ConcurrentPresentations", Shards: [2]int{3, 6}, Timeout: [2]int{600, 3000}},
+			{Test: "TestC15_ClientAssertions", Shards: [2]int{6, 8}, Checks: [2]int{600, 10000}, Timeout: [2]int{1500, 9000}},
+			{Test: "TestC15_JWTBearer", Shards: [2]int{6, 8}, Checks: [2]int{600, 10000}, Timeout: [2]int{1500, 9000}},
+			{Test: "TestC15_Schedules", Shards: [2]int{8, 8}, Timeout: [2]int{1500, 9000}},
+			{Test: "TestC15_ConcurrentPresentations", Shards: [2]int{3, 6}, Timeout: [2]int{1500, 9000}},
 		},
 	},
 
 	{
 		ID: "C14", Level: "exploration",
 		Rule: "every OpenID Connect flow (code, id_token, id_token token, the three hybrid types, device, plus refresh) x signing key (RSA, P-256 as raw key and as JWK, P-384 / P-521 JWK with the matching alg header) x configured ID-token lifetime x session (subject empty or not, auth_time before / equal / after requested_at or absent, pre-set expiry future / past, session issuer, extra claims that collide with reserved names) x request (nonce incl. URL-special characters, max_age, prompt, id_token_hint own / other subject / expired / garbage / foreign key, openid consented or not) on both stores; oracle: every ID token found in any response is verified with the public key and checked for alg, aud, sub, iss, nonce, exp window, at_hash / c_hash against the access token / code of the same response (left-half hash chosen by alg, computed independently), c_hash absent on refresh, and no ID token may exist when a stated blocker holds. Non-trivial: at least one ID token was issued and checked, or exactly one blocker holds; distinct by (key, flow, session shape, request shape, count).",
-		Jobs: []Job{{Test: "TestC14_IDTokens", Shards: [2]int{16, 16}, Checks: [2]int{900, 8000}, Timeout: [2]int{600, 3000}}},
+		Jobs: []Job{{Test: "TestC14_IDTokens", Shards: [2]int{16, 16}, Checks: [2]int{900, 8000}, Timeout: [2]int{1500, 9000}}},
 	},
 
 	{
 		ID: "C13", Level: "exploration",
 		Rule: "generated client registration (registered response-type combinations incl. reordered ones, grant types, response modes, public flag, request-object algorithm, JWKS, request_uris) x request (response_type multiset with reordering / duplicates / case / unknown members, response_mode incl. junk, state and nonce lengths around the threshold and with URL/HTML-special characters, scope with/without openid, redirect_uri present/absent, request object signed by registered / unregistered / another client's key, alg none, HS256, garbage, by value or by registered / unregistered request_uri); oracle: acceptance implies every stated condition (computed independently), request-object parameters are honoured only if verifiable, no access_token / id_token in any Location query, access tokens only with the implicit grant, a code never redeemable without the authorization_code grant, state echoed byte-identical. Non-trivial: exactly one rule unmet, or an accepted request with an explicit response mode, or a honoured request object; distinct by (type set, mode, lengths, flags, object kind, outcome).",
-		Jobs: []Job{{Test: "TestC13_AuthorizeValidation", Shards: [2]int{16, 16}, Checks: [2]int{1200, 15000}, Timeout: [2]int{600, 3000}}},
+		Jobs: []Job{{Test: "TestC13_AuthorizeValidation", Shards: [2]int{16, 16}, Checks: [2]int{1200, 15000}, Timeout: [2]int{1500, 9000}}},
 	},
 
 	{
 		ID: "C11", Level: "exploration",
 		Rule: "generated registration of 1-4 redirect URIs from a component grammar (https/http/custom/opaque schemes, names, IPv4/IPv6 loopback and non-loopback literals, localhost names, ports, paths, queries) x requested redirect_uri built from a registered one by 0-2 named near-miss edits (case, trailing slash, port, look-alike host, localhost swap, userinfo insertion/confusion, path append/dot-dot/case/percent-encoding, query add/reorder/drop, fragment, scheme swap, relative, empty, backslash, whitespace, IPv6/IPv4-mapped loopback) x response type x response mode x an error injected before (unknown client) or after (scope, state, response type/mode, audience, consent denied) redirect validation, also through PAR; oracle on the written bytes: the base of any Location / form action is string-identical to a registered URI or satisfies the loopback rule (netip), no fragment of its own, absolute; a request whose redirect_uri does not qualify per an independent component-level reference gets no redirect; codes never go to plain-http non-local targets. Non-trivial: requested URI differs from every registered string, or an error is injected after validation; distinct by (edits, type, mode, injected error, outcome).",
-		Jobs: []Job{{Test: "TestC11_RedirectTargets", Shards: [2]int{16, 16}, Checks: [2]int{1500, 15000}, Timeout: [2]int{600, 3000}}},
+		Jobs: []Job{{Test: "TestC11_RedirectTargets", Shards: [2]int{16, 16}, Checks: [2]int{1500, 15000}, Timeout: [2]int{1500, 9000}}},
 		Fuzz: []Fuzz{{Target: "FuzzC11RedirectMatch", Time: "90s"}},
 	},
 
 	{
 		ID: "C10", Level: "exploration",
 		Rule: "generated client registration (plain / OpenID Connect client with each token_endpoint_auth_method incl. unsupported ones, public or confidential, 0-3 rotated secrets, client ids and secrets with URL-special and non-ASCII characters, real bcrypt) x credential transport (Basic form-encoded, Basic raw, body, both, neither, id only, malformed header, client assertion by registered / unregistered key) x secret relation (current, rotated, wrong, empty, other client's, the stored hash, prefix, extended) x endpoint (token with client_credentials / authorization_code / refresh_token / password / device_code / jwt-bearer, revocation, PAR, device authorization), each request otherwise valid; oracle: necessary condition computed independently (a transport the method permits carried a valid secret or a valid assertion), refused requests must be invalid_client/invalid_request and must not write code/token records (storage recorder), canonical valid credentials must pass. Non-trivial: the client is confidential (the request reaches method gating / secret comparison); distinct by (registration, endpoint, transport, relation).",
-		Jobs: []Job{{Test: "TestC10_ClientAuthentication", Shards: [2]int{16, 16}, Checks: [2]int{2500, 12000}, Timeout: [2]int{600, 3000}}},
+		Jobs: []Job{{Test: "TestC10_ClientAuthentication", Shards: [2]int{16, 16}, Checks: [2]int{2500, 12000}, Timeout: [2]int{1500, 9000}}},
 	},
 
 	{
 		ID: "C06", Level: "exploration",
 		Rule: "four generated domains: (A) HMAC layer - generated secret configuration (current + 0-3 rotated, optional too-short secret at any position, custom hash, entropy) x minting secret relation (current, rotated, foreign, equal in the first 32 bytes, short secret zero-padded) x one named edit (bit flip in either decoded part, truncation/extension, part swap between tokens, dot/padding/newline/alphabet/trailing-bit re-encodings) compared in both directions with a reference that recomputes the MAC over the decoded parts; (B) end to end - code, access, refresh and device code with one named edit (incl. other random part with a stored signature, foreign secret, prefix changes, secret rotation kept/dropped) presented where it is consumed; (C) JWT access tokens - alg none/None, HS256 keyed with the public key, other key, payload/header edits with the original signature, signature swaps, JSON serialisation - against the storage-backed and the stateless introspector; (D) minting - thousands of values per kind: distinct, configured entropy, no constant byte, no biased bit. Non-trivial: any case with an edit, a non-current minting secret or a short secret configured; distinct by (layer, edit, relation, configuration shape).",
 		Jobs: []Job{
-			{Test: "TestC06_HMACLayer", Shards: [2]int{6, 12}, Checks: [2]int{3000, 100000}, Timeout: [2]int{600, 3000}},
-			{Test: "TestC06_EndToEnd", Shards: [2]int{6, 12}, Checks: [2]int{1000, 10000}, Timeout: [2]int{600, 3000}},
-			{Test: "TestC06_JWT", Shards: [2]int{4, 8}, Checks: [2]int{800, 6000}, Timeout: [2]int{600, 3000}},
-			{Test: "TestC06_Minting", Shards: [2]int{18, 18}, Timeout: [2]int{600, 3000}},
-			{Test: "TestC06_ConcurrentMinting", Shards: [2]int{2, 4}, Timeout: [2]int{600, 3000}},
+			{Test: "TestC06_HMACLayer", Shards: [2]int{6, 12}, Checks: [2]int{3000, 100000}, Timeout: [2]int{1500, 9000}},
+			{Test: "TestC06_EndToEnd", Shards: [2]int{6, 12}, Checks: [2]int{1000, 10000}, Timeout: [2]int{1500, 9000}},
+			{Test: "TestC06_JWT", Shards: [2]int{4, 8}, Checks: [2]int{800, 6000}, Timeout: [2]int{1500, 9000}},
+			{Test: "TestC06_Minting", Shards: [2]int{18, 18}, Timeout: [2]int{1500, 9000}},
+			{Test: "TestC06_ConcurrentMinting", Shards: [2]int{2, 4}, Timeout: [2]int{1500, 9000}},
 		},
 		Fuzz: []Fuzz{{Target: "FuzzC06HMACValidate", Time: "60s"}},
 	},
@@ -138,56 +138,56 @@ var plans = []Plan{
 	{
 		ID: "C02", Level: "exploration",
 		Rule: "state machine weighted to sequences of redemption attempts on live codes: foreign confidential/public client, wrong secret, redirect_uri absent/equal/different/re-encoded (trailing slash, host case, %-encoding, default port, extra query), smuggled scope/audience parameters, code ages on both sides of the (short) code lifetime, followed by the rightful attempt; Recorder asserts that a refused attempt creates no token record; per-step introspection compares every token's client/subject/scopes/audience with what consent granted. Non-trivial: a rightful redemption after >=1 refused attempt, or a refused attempt in a history with smuggled parameters.",
-		Jobs: []Job{{Test: "TestC02_CodeBinding", Shards: [2]int{16, 16}, Checks: [2]int{400, 4000}, Steps: [2]int{30, 60}, Timeout: [2]int{600, 3000}}},
+		Jobs: []Job{{Test: "TestC02_CodeBinding", Shards: [2]int{16, 16}, Checks: [2]int{400, 4000}, Steps: [2]int{30, 60}, Timeout: [2]int{1500, 9000}}},
 	},
 	{
 		ID: "C03", Level: "exploration",
 		Rule: "for one code: generated enforcement configuration (off/public/all x plain on/off), public/confidential client, code and hybrid response types, challenge present/absent, method S256/plain/''/unknown, then a sequence of 1-6 redemption attempts drawn from {no verifier, wrong, 42 chars, 129 chars, illegal character, verifier for the other method, the challenge string itself, correct} in any order followed by the decisive correct attempt; oracle: RFC 7636 reference (well-formedness + transformation) decides every attempt independently of earlier ones. Non-trivial: at least one failed attempt before the decisive one (or an authorization request the policy must refuse); distinct by configuration and attempt-kind sequence.",
-		Jobs: []Job{{Test: "TestC03_PKCE", Shards: [2]int{16, 16}, Checks: [2]int{1200, 10000}, Timeout: [2]int{600, 3000}}},
+		Jobs: []Job{{Test: "TestC03_PKCE", Shards: [2]int{16, 16}, Checks: [2]int{1200, 10000}, Timeout: [2]int{1500, 9000}}},
 	},
 
 	{
 		ID: "C01", Level: "exploration",
 		Rule: "rapid state machine over authorize/redeem/refresh/revoke/password/advance on a real in-process provider (reference MemoryStore and a contract-following transactional store, HMAC and JWT access tokens, three refresh-scope configurations, plain and hybrid codes, three clients); after every step every token ever received is introspected and compared with a reference model transcribed from the statement. Non-trivial: the history replays a successfully redeemed code (single refusal reason); distinct by the sequence of (action, refusal-reason) kinds.",
-		Jobs: []Job{{Test: "TestC01_CodeSingleUse", Shards: [2]int{16, 16}, Checks: [2]int{400, 4000}, Steps: [2]int{30, 60}, Timeout: [2]int{600, 3000}}},
+		Jobs: []Job{{Test: "TestC01_CodeSingleUse", Shards: [2]int{16, 16}, Checks: [2]int{400, 4000}, Steps: [2]int{30, 60}, Timeout: [2]int{1500, 9000}}},
 	},
 	{
 		ID: "C04", Level: "exploration",
 		Rule: "same state machine weighted to refresh chains (grants from code, hybrid, password and device origins), replays of any earlier generation, revocations in between, several families alive; per-step introspection of every token against the model. Non-trivial: chain depth >= 2 and a replay of a used refresh token; distinct by the (action, refusal-reason) sequence.",
-		Jobs: []Job{{Test: "TestC04_RefreshRotation", Shards: [2]int{16, 16}, Checks: [2]int{400, 4000}, Steps: [2]int{30, 70}, Timeout: [2]int{600, 3000}}},
+		Jobs: []Job{{Test: "TestC04_RefreshRotation", Shards: [2]int{16, 16}, Checks: [2]int{400, 4000}, Steps: [2]int{30, 70}, Timeout: [2]int{1500, 9000}}},
 	},
 	{
 		ID: "C05", Level: "exploration",
 		Rule: "state machine with refresh requests that smuggle scope/audience, foreign presenters, and post-issuance edits of the client registration (scope, audience, refresh_token grant removed/restored), under the three refresh-scope configurations; oracle: issuance rule for refresh tokens per flow, refresh honoured only while the model says the client still covers the grant, new tokens carry the original grant. Non-trivial: a refresh that differs from the grant (smuggled parameter, edited client or foreign presenter).",
-		Jobs: []Job{{Test: "TestC05_RefreshConfinement", Shards: [2]int{16, 16}, Checks: [2]int{400, 4000}, Steps: [2]int{30, 60}, Timeout: [2]int{600, 3000}}},
+		Jobs: []Job{{Test: "TestC05_RefreshConfinement", Shards: [2]int{16, 16}, Checks: [2]int{400, 4000}, Steps: [2]int{30, 60}, Timeout: [2]int{1500, 9000}}},
 	},
 	{
 		ID: "C08", Level: "exploration",
 		Rule: "state machine weighted to revocation at every history position: token kind (incl. the hybrid authorization-endpoint access token), hint right/wrong/garbage/absent, caller owner/foreign/wrong secret, tokens live/rotated/revoked/killed; per-step introspection of all tokens. Non-trivial: revocation of a live token that has a live sibling, or a refused / no-op revocation in a history with refreshes; distinct by the (action, caller, state) sequence.",
-		Jobs: []Job{{Test: "TestC08_Revocation", Shards: [2]int{16, 16}, Checks: [2]int{400, 4000}, Steps: [2]int{30, 60}, Timeout: [2]int{600, 3000}}},
+		Jobs: []Job{{Test: "TestC08_Revocation", Shards: [2]int{16, 16}, Checks: [2]int{400, 4000}, Steps: [2]int{30, 60}, Timeout: [2]int{1500, 9000}}},
 	},
 	{
 		ID: "C09", Level: "exploration",
 		Rule: "the per-step invariant itself (IntrospectToken on every token of the model: active flag, kind, client, subject, scopes, audience, expiry) plus the introspection endpoint with every caller credential (basic right/wrong/public, bearer live/dead/identical/refresh, none), hints, required-scope lists and one-edit token mutants, over arbitrary histories with short lifetimes. Non-trivial: an endpoint query in a history that contains a state change (refresh, revocation, replay); distinct by the action sequence incl. caller kind and expected state.",
-		Jobs: []Job{{Test: "TestC09_Introspection", Shards: [2]int{16, 16}, Checks: [2]int{400, 4000}, Steps: [2]int{35, 70}, Timeout: [2]int{600, 3000}}},
+		Jobs: []Job{{Test: "TestC09_Introspection", Shards: [2]int{16, 16}, Checks: [2]int{400, 4000}, Steps: [2]int{35, 70}, Timeout: [2]int{1500, 9000}}},
 	},
 	{
 		ID: "C16", Level: "exploration",
 		Rule: "state machine over device authorization, user decision (accept with full/partial consent, reject, none), polling by the right or a wrong client, replay after success and time advance, on the reference store and on the contract-following store. Non-trivial: a replay after success, or a decision followed by a refused poll; distinct by the (action, refusal-reason) sequence.",
-		Jobs: []Job{{Test: "TestC16_DeviceHistories", Shards: [2]int{16, 16}, Checks: [2]int{700, 5000}, Steps: [2]int{30, 60}, Timeout: [2]int{600, 3000}}},
+		Jobs: []Job{{Test: "TestC16_DeviceHistories", Shards: [2]int{16, 16}, Checks: [2]int{700, 5000}, Steps: [2]int{30, 60}, Timeout: [2]int{1500, 9000}}},
 	},
 	{
 		ID: "C17", Level: "exploration",
 		Rule: "state machine over push / authorize-with-request_uri (right client, wrong client, twice, after expiry, with conflicting query parameters) and redemption of the resulting codes. Non-trivial: a use that is refused, or a successful use with conflicting query parameters; distinct by the (action, refusal-reason) sequence.",
-		Jobs: []Job{{Test: "TestC17_PARHistories", Shards: [2]int{16, 16}, Checks: [2]int{700, 5000}, Steps: [2]int{30, 60}, Timeout: [2]int{600, 3000}}},
+		Jobs: []Job{{Test: "TestC17_PARHistories", Shards: [2]int{16, 16}, Checks: [2]int{700, 5000}, Steps: [2]int{30, 60}, Timeout: [2]int{1500, 9000}}},
 	},
 	{
 		ID: "C07", Level: "exploration",
 		Rule: "state machine with short generated lifetimes (code, access, refresh incl. -1, device, PAR) and time advances drawn from seconds..days and from just before / just past the next expiry known to the model; every credential is presented at its endpoint and introspected on both sides of the expiry advertised in the response. Non-trivial: a credential refused or reported inactive because it expired inside the history. Second job (lifespans): generated server defaults (access / refresh incl. -1 / ID token) x per-client overrides set independently for each of the 12 (grant, token type) pairs with pairwise distinct values x flow (code, implicit, client credentials, password, JWT bearer, device, followed by refresh): expires_in, introspected exp and the ID token exp must equal override-else-default for exactly that pair, and the newest access and refresh token are introspected 4 s before and 4 s after the advertised instant (unlimited refresh tokens after 400 days); non-trivial there: at least one override in force and a token issued. Third job: client assertions and JWT-bearer assertions with lifetimes of 5 s .. 1 h presented at -3, +3, +10 .. +86400 s relative to their exp (fresh jti each time): accepted before, refused after.",
 		Jobs: []Job{
-			{Test: "TestC07_ExpiryHistories", Shards: [2]int{12, 16}, Checks: [2]int{350, 4000}, Steps: [2]int{35, 70}, Timeout: [2]int{600, 3000}},
-			{Test: "TestC07_Lifespans", Shards: [2]int{6, 12}, Checks: [2]int{400, 10000}, Timeout: [2]int{600, 3000}},
-			{Test: "TestC07_AssertionExpiry", Shards: [2]int{2, 4}, Checks: [2]int{400, 10000}, Timeout: [2]int{600, 3000}},
+			{Test: "TestC07_ExpiryHistories", Shards: [2]int{12, 16}, Checks: [2]int{350, 4000}, Steps: [2]int{35, 70}, Timeout: [2]int{1500, 9000}},
+			{Test: "TestC07_Lifespans", Shards: [2]int{6, 12}, Checks: [2]int{400, 10000}, Timeout: [2]int{1500, 9000}},
+			{Test: "TestC07_AssertionExpiry", Shards: [2]int{2, 4}, Checks: [2]int{400, 10000}, Timeout: [2]int{1500, 9000}},
 		},
 	},
 
@@ -195,9 +195,9 @@ var plans = []Plan{
 		ID: "C12", Level: "exploration", ExhaustiveWhenAll: false,
 		Rule: "Part A: every (haystack, needle) pair over the segment alphabet {a,b,ab,*,''} up to 4 (quick) / 5 (thorough) segments is compared against matchers written from the README wording (exhaustive for that domain), multi-entry haystacks and audience URL pairs are generated from components; Part B: every flow is driven with requests whose scopes/audiences are generated around the client's registration under each strategy. Non-trivial: a pair on which the three scope strategies do not all agree, an audience pair that differs from the registered URL in exactly one component, or a flow request with at least one covered and one uncovered scope/audience. Distinct: by normalised pair / (flow, strategy, request shape).",
 		Jobs: []Job{
-			{Test: "TestC12_StrategiesExhaustive", Shards: [2]int{8, 16}, Timeout: [2]int{300, 1500}},
-			{Test: "TestC12_StrategiesGenerated", Shards: [2]int{2, 4}, Checks: [2]int{3000, 60000}, Timeout: [2]int{300, 1500}},
-			{Test: "TestC12_Confinement", Shards: [2]int{6, 12}, Checks: [2]int{400, 8000}, Timeout: [2]int{300, 1500}},
+			{Test: "TestC12_StrategiesExhaustive", Shards: [2]int{8, 16}, Timeout: [2]int{900, 6000}},
+			{Test: "TestC12_StrategiesGenerated", Shards: [2]int{2, 4}, Checks: [2]int{3000, 60000}, Timeout: [2]int{900, 6000}},
+			{Test: "TestC12_Confinement", Shards: [2]int{6, 12}, Checks: [2]int{400, 8000}, Timeout: [2]int{900, 6000}},
 		},
 		Fuzz: []Fuzz{{Target: "FuzzC12ScopeStrategies", Time: "60s"}},
 	},
